@@ -404,6 +404,27 @@ class Stmts:
                         continue
                     if src in ("re.compile",):
                         continue
+                    # constructor of a repo class (inlined): writes the fields its __init__ chain assigns, on a fresh object
+                    cls_name = node.func.id if isinstance(node.func, ast.Name) else None
+                    target = self.resolve_name(cls_name) if cls_name else None
+                    if target is not None and target[0] == "class" and not any(k.endswith(f":{target[1]}.__init__") for k in self.reg.contracts):
+                        allocs = True
+                        ok = True
+                        for cn in self.repo.mro(target[1]):
+                            init = self.repo.classes[cn].methods.get("__init__")
+                            if init is None:
+                                continue
+                            for sub in ast.walk(init):
+                                if isinstance(sub, ast.Attribute) and isinstance(sub.ctx, ast.Store):
+                                    keys.add("f." + sub.attr)
+                                elif isinstance(sub, (ast.List, ast.Dict, ast.ListComp, ast.DictComp, ast.Tuple)) and isinstance(getattr(sub, "ctx", ast.Load()), ast.Load):
+                                    keys |= {"llen", "lel", "dhas", "dval", "dsize"}
+                                elif isinstance(sub, ast.Call) and not (isinstance(sub.func, ast.Attribute) and isinstance(sub.func.value, ast.Call) and getattr(sub.func.value.func, "id", "") == "super") and ast.unparse(sub.func) not in ("isinstance", "len", "str", "int", "super"):
+                                    inner = self.resolve_name(sub.func.id) if isinstance(sub.func, ast.Name) else None
+                                    if not (inner is not None and inner[0] == "class"):
+                                        ok = False
+                        if ok:
+                            continue
                     # user call: use contract frame if there is one, else everything
                     allocs = True
                     c = self.callee_contract_for(node)
